@@ -143,6 +143,19 @@ def _judge(res, digest, seq, enz, sites, params):
         res.violate("crash", c.sig, msg=c.info["msg"], **wit)
         return None, None
     got = set(c.value)
+    _judge.n = getattr(_judge, "n", 0) + 1
+    if _judge.n % 4 == 0 and isinstance(c.value, set):
+        # the caller owns what digest() hands out: it edits the returned set in place (union with another protein's
+        # peptides, filtering), then digests the same sequence with the same settings again
+        c.value.add("#FOREIGN#")
+        if got:
+            c.value.discard(min(got))
+        c2 = core.Call(digest, seq, enzyme_regex=enz, missed_cleavages=mc, clip_nterm_methionine=clip,
+                       min_length=mn, max_length=mx, semi=semi)
+        res.count("repeat_after_caller_edit")
+        if c2.ok and set(c2.value) != got:
+            res.violate("result_aliases_internal_state", f"clip={clip},semi={semi}", first=sorted(got)[:20],
+                        second=sorted(set(c2.value))[:20], **wit)
     req, allowed = digest_ref(seq, sites, mc, clip, mn, mx, semi)
     if not (req <= got):
         res.violate("missing_peptide", f"clip={clip},semi={semi}", missing=sorted(req - got)[:8], got=sorted(got)[:20], **wit)
